@@ -70,6 +70,21 @@ fn main() {
         props::c16::det_dump(&args[2], args[3].parse().unwrap_or(1), &args[4]);
         return;
     }
+    if prop == "debug-actions" {
+        // iwe-verif debug-actions <file.md>: the code actions offered at every line of the note
+        let text = std::fs::read_to_string(&args[2]).unwrap();
+        let mut lib = act::Lib::new();
+        lib.insert("a".to_string(), text.clone());
+        for k in ["n1", "n2", "n3"] {
+            lib.insert(k.to_string(), format!("# {}\n", k));
+        }
+        let server = act::server(&lib, "", true);
+        for (i, l) in text.split('\n').enumerate() {
+            let a = act::actions_at(&server, "a", i as u32).map(|v| v.iter().map(|x| format!("{}@{}", x.0.rsplit('.').next().unwrap_or(""), x.1)).collect::<Vec<_>>());
+            println!("{:>3} {:<50} {:?}", i, l, a);
+        }
+        return;
+    }
     if prop == "debug-gen" {
         debug_gen(args[2].parse().unwrap(), u64::from_str_radix(&args[3], 16).unwrap(), args[4].parse().unwrap());
         return;
